@@ -286,7 +286,7 @@ func (r *rewriter) prepass() {
 			if id, ok := x.X.(*ast.Ident); ok {
 				if pn, ok := r.info.Uses[id].(*types.PkgName); ok && pn.Imported().Path() == "sync" {
 					switch x.Sel.Name {
-					case "Mutex", "RWMutex", "Once", "WaitGroup", "Locker":
+					case "Mutex", "RWMutex", "Once", "WaitGroup", "Locker", "Pool":
 					default:
 						r.unsup(x, "sync.%s is not modelled", x.Sel.Name)
 					}
